@@ -43,6 +43,9 @@ class Check(CheckBase):
             cases.append({'kind': 'big-delete', 'seed': r.randrange(1 << 30), 'flavour': 'async' if i % 2 else 'sync',
                           'settings': gen.gen_settings(r, encrypted=(i % 3 != 2), chunker=(12, 12)),
                           'concurrent': r.choice([1, 3, 5, 16])})
+        # delete / clean through the program entry point, bracketed by images of the repository directory
+        for i in range(4 if quick else 60):
+            cases.insert(i, {'kind': 'cli', 'seed': random.Random(f'C08/{self.seed}/cli/{i}').randrange(1 << 30), 'timeout': 900})
         return cases
 
     def worker_setup(self):
@@ -104,6 +107,9 @@ class Check(CheckBase):
                 'counters': dict(world.counters), 'violations': viol}
 
     def run_case(self, case):
+        if case.get('kind') == 'cli':
+            from .. import cliflow
+            return cliflow.run_case(case['seed'], 'gc')
         if case.get('kind') == 'big-delete':
             return self._big_delete(case)
         from .. import hist, rep
